@@ -626,7 +626,7 @@ def c15_stage(ctx):
                'change must be complete; (c) semantically failing operations change nothing; (d) read-only calls issue no mutating syscall on the sandbox and '
                'leave it byte- and inode-identical. Non-trivial: every injected fault and every read-only/failed call; distinct by (scenario, syscall occurrence, errno)', ctx)
     quick = ctx.tier == 'quick'
-    mut = ['add-user-scrypt', 'add-admin', 'add-user-notmp', 'init-argon', 'update-aux100', 'update-aux5k', 'update-aux-crlf-nonl', 'update-aux70k-oneline', 'setadmin-up', 'remove-user'] if quick else MUT_C09
+    mut = ['add-user-scrypt', 'add-admin', 'add-user-notmp', 'init-argon', 'update-aux100', 'update-aux5k', 'update-aux-crlf-nonl', 'update-aux70k-oneline', 'setadmin-up', 'remove-user'] if quick else [x for x in MUT_C09 if 'otherfs' not in x and 'symlink' not in x]
     for scen in mut:
         if getattr(ctx, 'only_case', None) and not ctx.only_case.startswith(scen):
             continue
